@@ -172,6 +172,73 @@ fn history<F: Function<Trace = VmTrace> + MathFunction>(r: &mut Rng, dags: &[Dag
     if st.sample.len() < 3 { st.sample.push(format!("{tag}: {}", log.join(", "))); }
 }
 
+/// Shape-level evaluators (the wrappers that own the per-variable scratch) reused across shapes
+/// with different variable sets and different batch sizes, against fresh ones.
+fn shape_history<F: Function + MathFunction>(r: &mut Rng, nsteps: usize, st: &mut HistStats, tag: &str) {
+    use fidget_core::context::Context;
+    use fidget_core::shape::{Shape, ShapeVars};
+    // shapes over different subsets of the axes (and a constant), single output
+    let build = |k: usize| -> Shape<F> {
+        let mut ctx = Context::new();
+        let (x, y, z) = (ctx.x(), ctx.y(), ctx.z());
+        let root = match k {
+            0 => { let a = ctx.mul(x, 2.0).unwrap(); ctx.add(a, 1.0).unwrap() }
+            1 => { let a = ctx.mul(x, y).unwrap(); let b = ctx.add(a, z).unwrap(); ctx.min(b, x).unwrap() }
+            2 => ctx.constant(3.5),
+            3 => { let a = ctx.sub(z, 0.25).unwrap(); ctx.abs(a).unwrap() }
+            4 => { let a = ctx.max(y, z).unwrap(); ctx.square(a).unwrap() }
+            _ => { let a = ctx.add(y, x).unwrap(); ctx.sqrt(a).unwrap() }
+        };
+        Shape::<F>::new(&ctx, root).unwrap()
+    };
+    let shapes: Vec<Shape<F>> = (0..6).map(build).collect();
+    let mut pe = Shape::<F>::new_point_eval();
+    let mut ie = Shape::<F>::new_interval_eval();
+    let mut se = Shape::<F>::new_float_slice_eval();
+    let mut ge = Shape::<F>::new_grad_slice_eval();
+    let none = ShapeVars::<f32>::new();
+    let mut log = vec![];
+    for step in 0..nsteps {
+        let k = r.below(shapes.len());
+        let n = *r.pick(&[0usize, 1, 2, 3, 7, 8, 9, 16, 33]);
+        let xs: Vec<f32> = (0..n).map(|_| gen_tame(r)).collect(); let ys: Vec<f32> = (0..n).map(|_| gen_tame(r)).collect(); let zs: Vec<f32> = (0..n).map(|_| gen_tame(r)).collect();
+        log.push(format!("shape{k} n={n}"));
+        *st.kinds.entry("shape-wrapper-step".into()).or_default() += 1; st.steps += 1;
+        let sh = &shapes[k];
+        let res = catch_unwind(AssertUnwindSafe(|| {
+            let mut msg = None;
+            // float slice
+            let ft = sh.float_slice_tape(Default::default());
+            let reused = se.eval_with_vars(&ft, &xs, &ys, &zs, &none).map(|o| o.iter().map(|v| canon_bits(*v)).collect::<Vec<_>>()).map_err(|e| e.to_string());
+            let fresh = Shape::<F>::new_float_slice_eval().eval_with_vars(&ft, &xs, &ys, &zs, &none).map(|o| o.iter().map(|v| canon_bits(*v)).collect::<Vec<_>>()).map_err(|e| e.to_string());
+            if reused != fresh { msg = Some(format!("float-slice wrapper: reused {reused:?} fresh {fresh:?}")); }
+            // grad slice
+            let gt = sh.grad_slice_tape(Default::default());
+            let gx: Vec<Grad> = xs.iter().map(|v| Grad::new(*v, 1.0, 0.0, 0.0)).collect(); let gy: Vec<Grad> = ys.iter().map(|v| Grad::new(*v, 0.0, 1.0, 0.0)).collect(); let gz: Vec<Grad> = zs.iter().map(|v| Grad::new(*v, 0.0, 0.0, 1.0)).collect();
+            let reused = ge.eval_with_vars(&gt, &gx, &gy, &gz, &none).map(|o| o.iter().map(grad_bits).collect::<Vec<_>>()).map_err(|e| e.to_string());
+            let fresh = Shape::<F>::new_grad_slice_eval().eval_with_vars(&gt, &gx, &gy, &gz, &none).map(|o| o.iter().map(grad_bits).collect::<Vec<_>>()).map_err(|e| e.to_string());
+            if reused != fresh { msg = Some(format!("grad-slice wrapper: reused {reused:?} fresh {fresh:?}")); }
+            if n > 0 {
+                let pt = sh.point_tape(Default::default());
+                let a = pe.eval(&pt, xs[0], ys[0], zs[0]).map(|o| canon_bits(o.0)).map_err(|e| e.to_string());
+                let b = Shape::<F>::new_point_eval().eval(&pt, xs[0], ys[0], zs[0]).map(|o| canon_bits(o.0)).map_err(|e| e.to_string());
+                if a != b { msg = Some(format!("point wrapper: reused {a:?} fresh {b:?}")); }
+                let it = sh.interval_tape(Default::default());
+                let (ix, iy, iz) = (Interval::new(xs[0], xs[0] + 0.5), Interval::new(ys[0], ys[0] + 0.5), Interval::new(zs[0], zs[0] + 0.5));
+                let a = ie.eval(&it, ix, iy, iz).map(|o| fmt_interval(&o.0)).map_err(|e| e.to_string());
+                let b = Shape::<F>::new_interval_eval().eval(&it, ix, iy, iz).map(|o| fmt_interval(&o.0)).map_err(|e| e.to_string());
+                if a != b { msg = Some(format!("interval wrapper: reused {a:?} fresh {b:?}")); }
+            }
+            msg
+        }));
+        match res {
+            Ok(None) => {}
+            Ok(Some(msg)) => { st.fails.push(format!("kind=reuse-changed-result backend={tag} {msg} history={log:?}")); return; }
+            Err(_) => { st.fails.push(format!("kind=panic backend={tag} shape-wrapper step {step} history={log:?}")); return; }
+        }
+    }
+}
+
 pub fn run(seed: u64, count: usize, outdir: &str) -> std::io::Result<i32> {
     let mut rng = Rng::new(seed ^ 0xC10);
     let mut st = HistStats { steps: 0, kinds: BTreeMap::new(), fails: vec![], sample: vec![] };
@@ -192,6 +259,10 @@ pub fn run(seed: u64, count: usize, outdir: &str) -> std::io::Result<i32> {
             0 => history::<GenericVmFunction<4>>(&mut r, &dags, nsteps, &mut st, "vm4"),
             1 => history::<GenericVmFunction<255>>(&mut r, &dags, nsteps, &mut st, "vm255"),
             _ => history::<JitFunction>(&mut r, &dags, nsteps, &mut st, "jit"),
+        }
+        match r.below(2) {
+            0 => shape_history::<fidget_core::vm::VmFunction>(&mut r, nsteps.min(16), &mut st, "vm"),
+            _ => shape_history::<JitFunction>(&mut r, nsteps.min(16), &mut st, "jit"),
         }
         distinct += 1;
         for f in &st.fails[before..] { writeln!(oracle, "FAIL case={ci} {f}").unwrap(); }
